@@ -182,6 +182,9 @@ class Check:
             exp = self.expected_error(case)
             if exp:
                 return ("violation", "answer returned although the input must be rejected (%s)" % sorted(exp))
+        if model is not None and model.get("hyp"):
+            return ("tie", "the case violates a hypothesis of the theorems (%s): unit set or tables of "
+                           "the library are not as modelled" % model.get("hyp"))
         # --- tie: implementation vs model
         if model is not None and not impl.get("nomodel"):
             mdl = run.norm(model)
